@@ -240,6 +240,37 @@ where
             }
         }
     }
+    // (b4) a reference that is not a commit (legal for git, never written by heartwood) under the lowest-
+    // resp. the highest-sorting namespace: whatever the answer is (an error, or the object without that
+    // reference), it may not depend on which namespace carries the odd reference
+    {
+        let mut idx: Vec<usize> = (0..w.namespaces.len()).collect();
+        idx.sort_by_key(|i| w.namespaces[*i].to_string());
+        let (lo, hi) = (idx[0], idx[idx.len() - 1]);
+        let mid: Vec<usize> = idx[1..idx.len() - 1].to_vec();
+        let blob = w.raw().blob(b"not a change").expect("blob");
+        let mut outs: Vec<Result<Option<Snap>, ()>> = vec![];
+        for j in [lo, hi] {
+            w.set_refs(&h.typename, &h.id, &tips, &mid);
+            let name = format!("refs/namespaces/{}/refs/cobs/{}/{}", w.namespaces[j], h.typename, h.id);
+            w.raw().reference(&name, blob, true, "verif").expect("odd ref");
+            outs.push(eval::<T>(w, &h.typename, &h.id).map_err(|_| ()));
+        }
+        rep.count("variant.non-commit-reference-under-lowest-vs-highest-namespace");
+        if outs[0].is_err() {
+            rep.count("variant.non-commit-reference.answer-is-an-error");
+        }
+        if outs[0] != outs[1] {
+            let d = |o: &Result<Option<Snap>, ()>| match o {
+                Err(()) => "error".to_string(),
+                Ok(None) => "no object".to_string(),
+                Ok(Some(s)) => format!("object with {} changes", s.entries.len()),
+            };
+            rep.violation(&format!("C05/{kind}/answer-depends-on-which-namespace-holds-a-non-commit-reference"),
+                json!({"under_lowest_namespace": d(&outs[0]), "under_highest_namespace": d(&outs[1]), "history": h.json(w)}));
+            return;
+        }
+    }
     // (a) recording evaluator behind the reordering store
     w.set_refs(&h.typename, &h.id, &tips, &ns);
     for reject_mod in [0u8, 3] {
